@@ -1627,4 +1627,72 @@ theorem dirLoadMem_mono (b : Mem) (main : Option (List Str)) (temps : List (List
   | none => exact ⟨fun e h => h, fun e h => h, rfl⟩
   | some ls => exact parseHostFile_mono b _
 
+/-! ### a loaded name is blocked at once -/
+
+theorem existsCanon_mono (r r' : Mem) (hm : ∀ e ∈ r.m, e ∈ r'.m) (hw : ∀ s ∈ r.wild, s ∈ r'.wild)
+    (hwl : r'.w = r.w) (k : Str) (h : existsCanon r k = true) : existsCanon r' k = true := by
+  rw [existsCanon_iff] at *
+  rw [hwl]
+  exact ⟨h.1, Cov_mono r r' hm hw k h.2⟩
+
+/-- right after `if !Exists(c) { set(c) }` the name `c` is blocked, unless the whitelist covers it. -/
+theorem loadName_blocks (b : Mem) (n : Str) (hc : canonical (canonical n) = canonical n)
+    (hstar : canonical n ≠ ['*', '.']) :
+    existsCanon (loadName b n) (canonical n) = true ∨ Hit (canonical n) b.w := by
+  unfold loadName
+  simp only
+  cases hex : «exists» b (canonical n) with
+  | true =>
+    left
+    simp only [if_true]
+    unfold «exists» at hex
+    rw [hc] at hex
+    exact hex
+  | false =>
+    simp only [Bool.false_eq_true, if_false]
+    unfold setLocked
+    simp only [hc]
+    cases hmh : matchHierarchy (canonical n) b.w with
+    | true => right; exact (matchHierarchy_iff _ _).mp hmh
+    | false =>
+      left
+      have hnw : ¬ Hit (canonical n) b.w := fun h => by
+        rw [(matchHierarchy_iff _ _).mpr h] at hmh; cases hmh
+      simp only [Bool.false_eq_true, if_false]
+      cases hwk : isWildKey (canonical n) with
+      | true =>
+        simp only [if_true]
+        rw [existsCanon_iff]
+        refine ⟨hnw, Or.inr ⟨(canonical n).drop 2, ?_, (mem_insertKey _ _ _).mpr (Or.inr rfl)⟩⟩
+        have hk := wildName_drop _ hwk
+        have hne : (canonical n).drop 2 ≠ [] := by
+          intro he
+          rw [he] at hk
+          exact hstar hk
+        generalize hs : (canonical n).drop 2 = sfx at hk hne
+        rw [hk, dotSuffixes_wildName]
+        simp [hne]
+      | false =>
+        simp only [Bool.false_eq_true, if_false]
+        rw [existsCanon_iff]
+        exact ⟨hnw, Or.inl (Or.inl ((mem_insertKey _ _ _).mpr (Or.inr rfl)))⟩
+
+theorem loadNames_blocks (b : Mem) (ns : List Str) (n : Str) (hn : n ∈ ns)
+    (hc : canonical (canonical n) = canonical n) (hstar : canonical n ≠ ['*', '.']) :
+    existsCanon (loadNames b ns) (canonical n) = true ∨ Hit (canonical n) b.w := by
+  induction ns generalizing b with
+  | nil => cases hn
+  | cons x t ih =>
+    have hf : loadNames b (x :: t) = loadNames (loadName b x) t := rfl
+    rw [hf]
+    rcases List.mem_cons.mp hn with rfl | hn'
+    · rcases loadName_blocks b n hc hstar with h | h
+      · left
+        have hm := loadNames_mono (loadName b n) t
+        exact existsCanon_mono _ _ hm.1 hm.2.1 hm.2.2 _ h
+      · exact Or.inr h
+    · rcases ih (loadName b x) hn' with h | h
+      · exact Or.inl h
+      · right; rw [(loadName_mono b x).2.2] at h; exact h
+
 end SdnsVerif.Lemmas.Blocklist
